@@ -19,6 +19,8 @@ pub enum Flavour {
     NotATtyHz,
     HiddenMulti,
     RemovedFromMulti,
+    /// member of a hidden MultiProgress, removed, after which the MultiProgress is given a visible target
+    RemovedFromHiddenMultiThenShown,
 }
 
 #[derive(Clone, Debug, PartialEq)]
@@ -81,6 +83,7 @@ impl Hist for C06 {
             BOp::Prefix("p"),
             BOp::Style(1),
             BOp::TabWidth(2),
+            BOp::TabWidth(8),
             BOp::Println("log"),
             BOp::SuspendEmpty,
             BOp::Reset,
@@ -98,6 +101,9 @@ impl Hist for C06 {
             v.retain(|o| !matches!(o, BOp::Inc(7) | BOp::Dec(1) | BOp::IncLen(_) | BOp::Style(_) | BOp::ResetEta | BOp::AbandonMsg(_) | BOp::FinishMsg(_) | BOp::UpdatePos(_) | BOp::Prefix(_)));
         }
         let mut out: Vec<Op> = v.into_iter().map(Op::B).collect();
+        if self.flavour == Flavour::RemovedFromHiddenMultiThenShown && !prefix.iter().any(|o| matches!(o, Op::Remove)) {
+            out.insert(0, Op::Remove);
+        }
         if self.flavour == Flavour::RemovedFromMulti && !prefix.iter().any(|o| matches!(o, Op::Remove | Op::RemoveFaulty(_))) {
             out.insert(0, Op::Remove);
             for k in 0..4u8 {
@@ -135,6 +141,12 @@ impl Hist for C06 {
                 mp = Some(m);
                 b
             }
+            Flavour::RemovedFromHiddenMultiThenShown => {
+                let m = MultiProgress::with_draw_target(ProgressDrawTarget::hidden());
+                let b = m.add(mk());
+                mp = Some(m);
+                b
+            }
         };
         let shown: Vec<String> = hist.iter().map(|o| format!("{:?}", o)).collect();
         let mut removed_calls: Option<u64> = None;
@@ -146,7 +158,12 @@ impl Hist for C06 {
                     apply(&twin, b);
                     apply(&subject, b);
                 }
-                Op::Remove => mp.as_ref().unwrap().remove(&subject),
+                Op::Remove => {
+                    mp.as_ref().unwrap().remove(&subject);
+                    if self.flavour == Flavour::RemovedFromHiddenMultiThenShown {
+                        mp.as_ref().unwrap().set_draw_target(ProgressDrawTarget::term_like(spy.boxed()));
+                    }
+                }
                 Op::RemoveFaulty(k) => {
                     let at = spy.st().fallible_calls + *k as usize;
                     spy.st().fault = crate::term::Fault::Once(at);
@@ -165,6 +182,9 @@ impl Hist for C06 {
                 // silence
                 let silent = match self.flavour {
                     Flavour::RemovedFromMulti => removed_calls.map_or(true, |c| spy.calls() == c),
+                    // hidden until the removal; whatever giving the MultiProgress a terminal does is
+                    // not the bar's doing, every later call on the removed bar must be silent
+                    Flavour::RemovedFromHiddenMultiThenShown => removed_calls.map_or(spy.calls() == 0, |c| spy.calls() == c),
                     _ => spy.calls() == 0,
                 };
                 if !silent {
@@ -197,9 +217,9 @@ impl Hist for C06 {
 
 fn configs(tier: Tier) -> Vec<(C06, usize)> {
     let mut v = Vec::new();
-    let flavours = [Flavour::HiddenTarget, Flavour::NotATty, Flavour::HiddenMulti, Flavour::RemovedFromMulti, Flavour::NotATtyHz];
+    let flavours = [Flavour::HiddenTarget, Flavour::NotATty, Flavour::HiddenMulti, Flavour::RemovedFromMulti, Flavour::NotATtyHz, Flavour::RemovedFromHiddenMultiThenShown];
     for (k, &flavour) in flavours.iter().enumerate() {
-        let fin = [Fin::AndLeave, Fin::WithMessage, Fin::AndClear, Fin::AbandonWithMessage, Fin::Abandon][k];
+        let fin = [Fin::AndLeave, Fin::WithMessage, Fin::AndClear, Fin::AbandonWithMessage, Fin::Abandon, Fin::AndLeave][k];
         match tier {
             Tier::Quick => {
                 v.push((C06 { flavour, fin, reduced: false }, if flavour == Flavour::RemovedFromMulti { 3 } else { 2 }));
@@ -223,7 +243,7 @@ pub fn run(tier: Tier, shard: Shard, stats: &mut Stats) {
 pub fn meta(tier: Tier) -> Meta {
     Meta {
         level: "model_checking",
-        rule: "stateless DFS over all single-bar histories (25-operation alphabet incl. println, suspend, set_tab_width, length changes, every finish variant, positions beyond the length) to the stated depth, each executed in lock-step on a visible twin and on a hidden subject: ProgressDrawTarget::hidden(), ProgressBar::new with fd 2 redirected to a file (not a TTY), stderr_with_hz on the same, member of a hidden MultiProgress, and a member of a visible MultiProgress removed at every possible point of the history; oracle: zero terminal calls (spy call counter incl. width/height; redirected file stays empty) and getters equal to the twin's after every operation; non-trivial = history contains more than ticks".into(),
+        rule: "stateless DFS over all single-bar histories (26-operation alphabet incl. println, suspend, set_tab_width, length changes, every finish variant, positions beyond the length) to the stated depth, each executed in lock-step on a visible twin and on a hidden subject: ProgressDrawTarget::hidden(), ProgressBar::new with fd 2 redirected to a file (not a TTY), stderr_with_hz on the same, member of a hidden MultiProgress, a member of a visible MultiProgress removed at every possible point of the history, and a member of a hidden MultiProgress removed at every point after which the MultiProgress is given a visible target; oracle: zero terminal calls (spy call counter incl. width/height; redirected file stays empty) and getters equal to the twin's after every operation; non-trivial = history contains more than ticks".into(),
         assumptions: vec!["fd 2 of the shard process is redirected to an unlinked file for the whole run".into()],
         bounds: json!({"configurations": configs(tier).iter().map(|(c, d)| json!({"config": c.config(), "reduced_alphabet": c.reduced, "depth": d})).collect::<Vec<_>>()}),
         exhaustive: true,
